@@ -18,6 +18,7 @@
 package tsdb
 
 import (
+	"errors"
 	"fmt"
 	"io"
 	"strconv"
@@ -31,6 +32,7 @@ import (
 	"go.uber.org/atomic"
 
 	"github.com/lindb/lindb/config"
+	"github.com/lindb/lindb/constants"
 	"github.com/lindb/lindb/flow"
 	"github.com/lindb/lindb/kv"
 	"github.com/lindb/lindb/metrics"
@@ -392,17 +394,19 @@ func (f *dataFamily) MemDBSize() int64 {
 // if it finds data then returns the FilterResultSet, else returns nil
 func (f *dataFamily) Filter(executeCtx *flow.ShardExecuteContext) (resultSet []flow.FilterResultSet, err error) {
 	f.lastReadTime.Store(fasttime.UnixMilliseconds())
+	// NOTE: result is the union of memory and files, if one of them not found data(metric exist, but series/field not exist),
+	// cannot ignore the data of the other one.
 	memRS, err := f.memoryFilter(executeCtx)
-	if err != nil {
+	if err != nil && !errors.Is(err, constants.ErrNotFound) {
 		return nil, err
 	}
 	fileRS, err := f.fileFilter(executeCtx)
-	if err != nil {
+	if err != nil && !errors.Is(err, constants.ErrNotFound) {
 		return nil, err
 	}
 	resultSet = append(resultSet, memRS...)
 	resultSet = append(resultSet, fileRS...)
-	return
+	return resultSet, nil
 }
 
 // GetState returns the current state include memory database state.
@@ -455,6 +459,10 @@ func (f *dataFamily) memoryFilter(shardExecuteContext *flow.ShardExecuteContext)
 	memFilter := func(memDB memdb.MemoryDatabase) error {
 		rs, err := memDB.Filter(shardExecuteContext)
 		if err != nil {
+			if errors.Is(err, constants.ErrNotFound) {
+				// not found in this memory database, need check the other one
+				return nil
+			}
 			return err
 		}
 		resultSet = append(resultSet, rs...)
